@@ -6,10 +6,12 @@ CONSTANTS
   MaxSched = 100
   OutBatch = 2
   MatchRel <- TMatch
-  RFix = {"ready_unknown", "unsuback_one", "unsub_notifs", "resume_submap"}
+  RFix = {"ready_unknown", "unsuback_one", "unsub_notifs", "resume_submap", "group_bufferfull", "group_per_filter", "unsub_own_group", "unsub_shared_waiter", "group_skip_unread", "resume_rejoin"}
   CIDs = {"c1", "c2", "c3"}
   Topics <- TTopics
   Filters <- TFilters
+  SubFilters <- TFilters
+  Strategy = "RoundRobin"
   NetCid <- TNetCid
   NetClean <- TClean
   NetWill <- TNoWill
